@@ -165,6 +165,24 @@ def shell_pairs():
     # with an explicit signature the built-in strategy (args, env, deps...) is replaced (docs/buildsystem.rst)
     add("sig-fixed-arg", "args (explicit signature)", setarg(sa, 4, "abx"), a=sa, relevant=False)
     add("sig-fixed-env", "env (explicit signature)", mut(sa, env=[("K1", "V9"), ("AB", "C")]), a=sa, relevant=False)
+    # a minimal command (one file input, one file output, no deps) under each flag: with
+    # allow-modified-outputs the engine-side "update if outputs exist" shortcut is reachable
+    S = {"name": "T", "tool": "shell", "inputs": ["s1"], "outputs": ["o1"],
+         "args": [wx.VCMD, "cat", "T", "o1", "--", "s1"], "env": [("K1", "V1")], "attrs": {}}
+    for flag in (None, "allow-modified-outputs", "allow-missing-inputs"):
+        SF = mut(S, **{"attr_" + flag.replace("-", "_"): "true"}) if flag else S
+        tag = "simple-" + (flag or "plain")
+        add(tag + ".arg-tag", "args", setarg(SF, 2, "T'"), a=SF)
+        add(tag + ".env-value", "env", mut(SF, env=[("K1", "V9")]), a=SF)
+        add(tag + ".env-added", "env", mut(SF, env=[("K1", "V1"), ("K2", "V2")]), a=SF)
+    # the same signature-relevant changes on bases that carry a non-default flag: a flag must not
+    # turn a definition change into a no-op
+    for flag in ("allow-modified-outputs", "allow-missing-inputs", "can-safely-interrupt", "inherit-env"):
+        for val in ("true", "false"):
+            BF = mut(B, **{"attr_" + flag.replace("-", "_"): val})
+            tag = "with-%s-%s" % (flag, val)
+            add(tag + ".arg-tag", "args", setarg(BF, 2, "T'"), a=BF)
+            add(tag + ".env-value", "env", mut(BF, env=[("K1", "V9"), ("AB", "C")]), a=BF)
     return P
 
 
